@@ -9,14 +9,14 @@ PROVED = {
 'C02': 'full: `/ %` values and exponents, identity for all type pairs, remainder; `quotient()` exact, wide enough, error < 1 unit',
 'C03': 'full for scaled (by value / built-in rule for mixed signedness, trichotomy); elastic via C05; wide same-type via C10; wide mixed-width comparisons by value for all limb counts (after the repair); integer-vs-wrapper by correspondence',
 'C04': 'integer conversions full (exact or truncated toward zero); radix-2 floating point: correctly rounded (nearest, ties to even, stated on exact dyadics), exact when it fits, round trip identity, float→scaled exact or truncated',
-'C05': 'full for `+ − * / %`, unary −, `<< k`, comparisons; `>> k` refuted + proved under the complementary hypothesis; elastic_scaled_integer by correspondence + exact oracle',
+'C05': 'full for `+ − * / %`, unary −, `<< k`, comparisons; `>> k` refuted + proved under the complementary hypothesis; elastic_scaled_integer: `scale<±k>`, `+ − * / %`, negation, comparisons exact and in range',
 'C06': 'builtin path: `+ − *` for ANY signedness/width mix; portable path: value-preserving pairs; `/`, `<<` (every count), `−x`, integer convert, float→integer convert (flag iff real value outside the range); refutations of the two open classes',
 'C07': 'totality for all operand pairs incl. mixed signedness, both paths, `<<`/`>>` for every non-negative count, float sources',
 'C08': 'full: all widths, mixed types, four modes; spec characterised and unique',
-'C09': 'scaled paths under the complements of the classes; float→int: native, neg_inf, nearest (every input) and ties-up (exact bias); float→scaled: power exactness, native, complements of three classes; the rounding_integer-rep route by correspondence (it is C08\'s division)',
+'C09': 'scaled paths under the complements of the classes; float→int: native, neg_inf, nearest (every input) and ties-up (exact bias); float→scaled: power exactness, native, complements of three classes; the rounding_integer-rep route correctly rounded whenever 2^k fits the promoted type (one refuted class)',
 'C10': 'full incl. Knuth completeness and Karatsuba (transcribed with scratch memory, proved exact after the repair); float conversions: from-float exact for every finite input, to-float exact when representable and faithful (two-neighbour bracket) below the overflow neighbourhood',
-'C11': 'full: per node and by induction over expression trees (`never_silently_wrong`) outside two refuted classes; construction from floating point flags iff the real value is out of range',
-'C12': 'full for nests of any depth, ++/−−, documentation kernels',
+'C11': 'full: per node and by induction over expression trees (`never_silently_wrong`, now with shift nodes: `<<` exact or signalled, `>>` the floor, run-time / static_integer / constant counts) outside three refuted classes; construction from floating point flags iff the real value is out of range',
+'C12': 'full for nests of any depth and order incl. exponent-changing operations (`scale_transparent`), ++/−−, documentation kernels',
 'C13': 'integers full incl. per-base capacity; scaled contract for signed and unsigned significands; scaled capacity for non-negative exponents (partial)',
 'C14': 'integers full; fractional clauses (never above, < 1 unit of the last digit + proven precision allowance, exact when it fits) for every significand type',
 'C15': 'Horner for any length, chunk bounds, width estimate, scanner/grammar link proved symbolically for every well-formed token (one harmless exclusion), run-time parse for ≥ 64-bit results, deduction incl. static_* for every constant, Precise descale value invariant',
@@ -24,7 +24,7 @@ PROVED = {
 'C17': 'full statement REFUTED; invariants, exits, fuel independence proved (partial)',
 'C18': 'full: all widths, three configurations',
 'C19': 'full incl. termination and no overflow of root+bit',
-'C20': '8-bit tables, oracle soundness, integral exactness; constants proved against the true reals for 1342 of 1386 entries (partial: 16/32-bit exp2 by sweep, 44 γ entries numerical)',
+'C20': '8-bit tables, oracle soundness, integral exactness for every 8/16/32-bit format, below-range inputs; constants proved against the true reals for 1342 of 1386 entries (partial: 16/32-bit exp2 by sweep, 44 γ entries numerical)',
 }
 FALSE_ALARMS = open(os.path.join(ROOT, 'tools', 'false_alarms.md')).read()
 
